@@ -77,6 +77,9 @@ OBS_Q3 = R("obscure_q3", "obscure_q3.cfg", expect_ops=["compress_subject", "unco
 
 DEEP_S = R("deep_s", "deep_s.cfg", rounds=1, simulate="num=25", depth=10, workers=4, expect_ops=["add_salt", "add_signature", "elide_set", "encrypt_subject", "compress_subject"])
 DEEP_S_T = dict(DEEP_S, name="deep_s_t", simulate="num=400", rounds=2)
+DEEP_X = R("deep_x", "deep_x.cfg", rounds=1, simulate="num=25", depth=10, workers=4,
+           expect_ops=["elide_set", "add_signature", "seal", "encrypt_subject_to_recipients", "proof_contains_set", "obs_confirm", "add_attachment", "forge_signed", "tamper", "sskr_join", "obs_verify"])
+DEEP_X_T = dict(DEEP_X, name="deep_x_t", simulate="num=300", rounds=2, timeout=3000)
 
 FORGE_Q = R("forge_q", "forge_q.cfg", expect_ops=["forge_encrypted", "forge_compressed", "tamper", "corrupt", "decrypt_subject", "uncompress_subject"], expect_out=["decrypt_subject:err", "uncompress_subject:err", "uncompress_subject:ok"])
 
@@ -127,9 +130,9 @@ PLAN = {
         quick=[QUERY_Q],
     ),
     "C16": dict(
-        rule="every call of every configuration runs under catch_unwind; a panic is never an allowed outcome. This check runs the query / lookup / extraction family and the transform / obscure families on every shape, node-subject nodes, decorated (assertion-on-assertion) shapes and their obscured variants",
-        quick=[QUERY_Q, OBS_Q, TOTAL_Q, DECODE_Q],
-        thorough=[QUERY_Q, OBS_Q, TOTAL_Q, DECODE_Q, CORE_ALL3, SIG_Q, RECIPIENT_Q, SSKR_MIX_Q, ATTACH_Q, SALT_Q, DEEP_S_T],
+        rule="every call of every configuration runs under catch_unwind; a panic is never an allowed outcome. This check runs the query / lookup / extraction family and the transform / obscure families on every shape, node-subject nodes, decorated (assertion-on-assertion) shapes and their obscured variants, and random histories of 10 calls over EVERY family of the machine (deep_x, TLC simulation: core, salt, signatures and forged signatures, recipients, SSKR, proofs, types, attachments, adversarial forge / tamper, all observations) on 3 registers",
+        quick=[QUERY_Q, OBS_Q, TOTAL_Q, DECODE_Q, DEEP_X],
+        thorough=[QUERY_Q, OBS_Q, TOTAL_Q, DECODE_Q, CORE_ALL3, SIG_Q, RECIPIENT_Q, SSKR_MIX_Q, ATTACH_Q, SALT_Q, DEEP_S_T, DEEP_X_T],
     ),
     "C06": dict(
         rule="wire terms: the encoding of every shape (<= 5 elements, node-subject nodes, decorated assertions, nodes with 2-3 assertions, tagged-known-value leaves) and of its obscured variants, mutated at one position (reorder / duplicate assertion elements, drop all assertions, non-assertion in an assertion slot, unknown tag, leaf<->envelope retag, legacy leaf tag, digest one byte short/long, 0- or 2-entry assertion map, encrypted/compressed without digest or with a surplus element, non-minimal head, indefinite length, float/text/negative/bool in an element position); thorough: two positions. Each evaluated to bytes and given to the real decoder; the specification's decoder says accept (and what) or reject",
